@@ -275,4 +275,7 @@ class Gen:
             return (1,)
         if r < 0.85:
             return (self.rng.randint(2, 4),)
-        return (self.rng.randint(1, 2), self.rng.randint(1, 3))
+        if r < 0.95:
+            return (self.rng.randint(1, 2), self.rng.randint(1, 3))
+        # three collection axes, the two leading ones of equal length (a transposition there would go unnoticed by shapes)
+        return (2, 2, self.rng.randint(1, 2))
